@@ -1,6 +1,6 @@
 # table consumed by tools_manifest.py
 ENGINES = [
-    {"name": "vv", "path": "vv/", "serves_properties": ["C01", "C02", "C03", "C04", "C05", "C06", "C07", "C09", "C10", "C11", "C12", "C13", "C14", "C15", "C16", "C17", "C18", "C19"], "kind_free_text": "runtime monitors: generators, independent flatbuffer reader/writer, compile drivers, sharded worker harness, evidence/findings"},
+    {"name": "vv", "path": "vv/", "serves_properties": ["C01", "C02", "C03", "C04", "C05", "C06", "C07", "C08", "C09", "C10", "C11", "C12", "C13", "C14", "C15", "C16", "C17", "C18", "C19"], "kind_free_text": "runtime monitors: generators, independent flatbuffer reader/writer, compile drivers, sharded worker harness, evidence/findings"},
 ]
 NOTES = ("Technique family: runtime monitoring and sanitizers. Every check runs the real code from /repo's working tree (codec rebuilt from the C "
          "sources on every run) under generated workloads with oracles observing executions; verdicts are violated / held-on-what-was-observed / "
@@ -166,3 +166,13 @@ check("C01", "translation_validation",
       "The NPU model and the reference interpreter are the trusted base (DESIGN Appendix B/C, calibration notes in section 8); unmodelled modes (32-bit tables = softmax, hardware "
       "tanh/sigmoid) make a case inconclusive; inputs are sampled.",
       "translation validation by executing the emitted artefact in an executable hardware model", "DESIGN.md 4/C01")
+
+check("C08", "runtime_contract",
+      "Contract on every return value of the real encode_weight_and_scale_tensor (wrapped from the harness): the tensor is parsed by its recorded ranges - key set = (core, slice) "
+      "assignment, 16-byte alignment, stream order, disjointness, transfer size covers the range, double-buffer sizes bound the slices of their parity; the scale section must hold one "
+      "10-byte record per assigned channel equal to the reference derivation; the weight section is decoded with the frozen MLW decoder and must equal the zero-point-corrected weights "
+      "of exactly those channels in the hardware traversal order of the requesting operator; every cache hit is re-issued with the cache emptied and compared byte for byte. Workloads: "
+      "direct-drive request sequences built to collide in the cache key (shared filter with other scales / same bias / other IFM width / conv vs transpose conv, re-slicing, 1-2 cores) "
+      "and the same contract around all calls of real compilations with small caches.",
+      "Depth-slice lists are those the scheduler builds (interior offsets multiples of 16); volumes above 90000 weights are checked for structure and scales only; requests are sampled.",
+      "runtime contract on the real function with a decoding oracle and a cache-history monitor", "DESIGN.md 4/C08")
